@@ -244,9 +244,11 @@ func c12kGen(t *rapid.T) c12kPlan {
 		// K: how many syscalls of the class a thread gets through before the kill. The classes differ
 		// by an order of magnitude in how often they occur.
 		kmax := map[string]int{"openat": n, "rename": n, "close": 4 * n, "write": 8 * n, "file": 6 * n, "any": 40 * n, "none": 1}[inc.Class]
-		if inc.Class != "none" && rapid.IntRange(0, 7).Draw(t, "boot") == 0 {
+		if inc.Class != "none" && rapid.IntRange(0, 3).Draw(t, "boot") == 0 {
+			// (a proxy that restores without writing makes no rename and few writes before it accepts commands: a count
+			// it does not reach during start-up is reached during the commands, which is as good a place to die)
 			inc.Boot = true
-			kmax = map[string]int{"openat": 12, "rename": 1, "close": 18, "write": 5, "file": 30, "any": 150}[inc.Class]
+			kmax = map[string]int{"openat": 20, "rename": 4, "close": 25, "write": 10, "file": 40, "any": 200}[inc.Class]
 		}
 		inc.K = rapid.IntRange(1, kmax).Draw(t, "k")
 		p.Incs = append(p.Incs, inc)
